@@ -173,17 +173,20 @@ void h_prune_symmetry(void)
 /* C20: "translating a routing scene by an exactly representable offset translates the result by the same offset".
  * For the bend-count kernel: on integer-valued coordinates, translating both points by an integer offset leaves the
  * estimate unchanged (two calls of the real Avoid::bends, helpers inlined). */
+#ifndef TB
+#define TB 1048576
+#endif
 struct PACKED Pt2 { double x; double y; unsigned int id; unsigned short vn; };
 int w_bends(void *curr, unsigned int currDir, void *dest, unsigned int destDir);
 void h_bends_translation(void)
 {
     int cx, cy, dx, dy, tx, ty; unsigned int cd, dd;
-    __CPROVER_assume(cx >= -1048576 && cx <= 1048576 && cy >= -1048576 && cy <= 1048576 && dx >= -1048576 && dx <= 1048576 && dy >= -1048576 && dy <= 1048576);
-    __CPROVER_assume(tx >= -1048576 && tx <= 1048576 && ty >= -1048576 && ty <= 1048576);
+    __CPROVER_assume(cx >= -TB && cx <= TB && cy >= -TB && cy <= TB && dx >= -TB && dx <= TB && dy >= -TB && dy <= TB);
+    __CPROVER_assume(tx >= -TB && tx <= TB && ty >= -TB && ty <= TB);
     __CPROVER_assume((cd == 1 || cd == 2 || cd == 4 || cd == 8) && (dd == 1 || dd == 2 || dd == 4 || dd == 8) && !(cx == dx && cy == dy));
     struct Pt2 c1, d1, c2, d2;
     c1.x = cx; c1.y = cy; d1.x = dx; d1.y = dy;
-    c2.x = cx + tx; c2.y = cy + ty; d2.x = dx + tx; d2.y = dy + ty;      /* exact: integers below 2^22 */
+    c2.x = cx + tx; c2.y = cy + ty; d2.x = dx + tx; d2.y = dy + ty;      /* exact: small integers */
     int r1 = w_bends(&c1, cd, &d1, dd), r2 = w_bends(&c2, cd, &d2, dd);
     __CPROVER_assert(r1 == r2, "SPEC bends: translating both points by an exactly representable offset leaves the estimate unchanged");
     VERIF_CANARY;
